@@ -28,7 +28,8 @@ type Run struct {
 	Imports    map[string]int
 	ImportUse  map[string]bool
 	Registered []Value
-	AddArgs    []Value // the argument types of the call as given to Add
+	AddArgs    []Value     // the argument types of the call as given to Add
+	FormatData []token.Pos // Printer.P calls whose format argument contains the text of a type
 	Generating [][]Value
 	RecCut     bool
 	Dup        bool // same text as an earlier accepted run of this plugin
@@ -273,6 +274,7 @@ func (s *Sweeper) one(plugin string, newFn *VFunc, cfg sweepConfig, or *Oracle) 
 		return
 	}
 	run.Outcome = "accepted"
+	run.FormatData = in.formatData
 	run.Lines = in.lines
 	var b strings.Builder
 	b.WriteString("package p\n")
